@@ -68,11 +68,25 @@ RECURSIVE JudgeAlts(_, _)
 JudgeAlts(nx, k) == IF k > Len(nx) THEN <<>>
                     ELSE JudgeBoth(nx[k], stack, tops, Apply(nx[k].c, stack, tops), defd, Len(Log[c].h) + k) \o JudgeAlts(nx, k + 1)
 
+\* Loose equality for the tokenizer law: equal, or differing only in the Go representation (int64 from the tokenizer,
+\* json.Number from oj.Parse) of a number literal that is one of 9223372036854775800..807 ("top8", a fact about the text
+\* supplied by the harness) with the same decimal text.  That is the known oj.Parse defect recorded under C02, not a
+\* property of the builders; it gets its own locus, every other difference stays "final".
+NumText(z) == IF z.t = "int" THEN z.s ELSE z.v
+Top8Pair(x, y) == /\ "top8" \in DOMAIN x /\ "top8" \in DOMAIN y /\ x.t \in {"int", "big"} /\ y.t \in {"int", "big"}
+                  /\ NumText(x) = NumText(y)
+RECURSIVE Loose(_, _)
+Loose(e, g) == IF e = g THEN TRUE
+               ELSE IF e.t = "obj" /\ g.t = "obj" THEN DOMAIN e.m = DOMAIN g.m /\ \A k \in DOMAIN e.m : Loose(e.m[k], g.m[k])
+               ELSE IF e.t = "arr" /\ g.t = "arr" THEN Len(e.v) = Len(g.v) /\ \A k \in 1..Len(e.v) : Loose(e.v[k], g.v[k])
+               ELSE Top8Pair(e, g)
+ParseLoc(r, p) == IF Loose(r, p) THEN <<"final", "repr:int64-top8">> ELSE <<"final">>
+
 \* the tokenizer law: the builders driven by the event stream hand back what oj.Parse returns for the text
 JudgeParse(L) == IF ~L.hasparse \/ L.h = <<>> THEN <<>>
                  ELSE LET e == L.h[Len(L.h)] IN
-                      (IF "alt.Builder" \notin seen /\ e.alt.o = "ok" /\ e.alt.r # L.parse THEN Bad("oj.Tokenize+alt.Builder", "differs-from-parse", <<"final">>, 0) ELSE <<>>)
-                      \o (IF "gen.Builder" \notin seen /\ e.gen.o = "ok" /\ e.gen.r # L.parse THEN Bad("oj.Tokenize+gen.Builder", "differs-from-parse", <<"final">>, 0) ELSE <<>>)
+                      (IF "alt.Builder" \notin seen /\ e.alt.o = "ok" /\ e.alt.r # L.parse THEN Bad("oj.Tokenize+alt.Builder", "differs-from-parse", ParseLoc(e.alt.r, L.parse), 0) ELSE <<>>)
+                      \o (IF "gen.Builder" \notin seen /\ e.gen.o = "ok" /\ e.gen.r # L.parse THEN Bad("oj.Tokenize+gen.Builder", "differs-from-parse", ParseLoc(e.gen.r, L.parse), 0) ELSE <<>>)
 
 TEnd == /\ c <= N /\ i > Len(Log[c].h)
         /\ Record(JudgeAlts(Log[c].nx, 1) \o JudgeParse(Log[c]))
